@@ -258,6 +258,15 @@ func (conn *Conn) splitListRequest(ctx context.Context, opts arvados.ListOptions
 					if _, ok := todo[uuid]; ok {
 						progress = true
 						delete(todo, uuid)
+					} else {
+						// The page was merged into the
+						// response already, so an item
+						// that is not (or no longer)
+						// wanted would be returned to
+						// the client as a duplicate or
+						// an unrequested object.
+						errs <- httpErrorf(http.StatusBadGateway, "cannot execute federated list query: cluster %q returned item %q which was not requested or was already returned", clusterID, uuid)
+						return
 					}
 				}
 				if len(done) == 0 {
